@@ -223,6 +223,9 @@ func (e *Engine) VerifyFunc(fn *ssa.Function, mode string) (rep *FuncReport) {
 				if cl.Seq && mode != "seq" {
 					continue
 				}
+				if cl.Mon && mode != "mon" {
+					continue
+				}
 				if cl.Acq {
 					if mode != "mon" || q.lastAcq == nil {
 						continue
